@@ -196,6 +196,47 @@ def padfit_document(rng):
     return html, root, H, counter[0]
 
 
+def avoidpara_document(rng):
+    """Documents aimed at the line-box case of find_earlier_page_break: a paragraph with orphans <> widows that fits on
+    the page after a filler, followed by content that must not be separated from it (break-before: avoid on the next
+    block, or break-after: avoid on the paragraph) and that overflows: the earlier break inside the paragraph has to
+    leave `orphans` lines and carry `widows` lines - or none exists.  One 7-letter word per line (page 100px wide)."""
+    H = rng.choice([50, 60, 70, 80, 100])
+    counter = [0]
+
+    def para(n, st, o, w, declare):
+        css = []
+        for k, v in st.items():
+            if k in CSSNAME:
+                css.append('%s:%s' % (CSSNAME[k], ('%dpx' % v) if isinstance(v, int) else v))
+        if declare:
+            css.append('orphans:%d' % o); css.append('widows:%d' % w)
+        st = dict(st); st['orphans'], st['widows'] = o, w
+        ws = list(range(counter[0], counter[0] + n))
+        counter[0] += n
+        return ('<p style="%s">%s</p>' % (';'.join(css), ' '.join(word(i) for i in ws)), ('blk', st, [('lines', ws)], False))
+
+    html, kids = '', []
+    for _ in range(rng.choice([1, 1, 2])):
+        lines_per_page = H // 10
+        k = rng.choice([1, 1, 2, 3])
+        o, w = rng.choice([(1, 2), (1, 3), (2, 1), (3, 1), (3, 2), (2, 3), (4, 1), (1, 4), (2, 2), (4, 2)])
+        n = max(2, min(6, lines_per_page - k - rng.choice([0, 0, 0, 1])))
+        tail = rng.choice([1, 2, 2, 3])
+        how = rng.choice(['bf', 'bf', 'ba'])
+        h, b = para(k, {}, 1, 1, False); html += h; kids.append(b)
+        h, b = para(n, {'ba': 'avoid'} if how == 'ba' else {}, o, w, True); html += h; kids.append(b)
+        tst = {'bf': 'avoid'} if how == 'bf' else {}
+        if rng.random() < 0.6:
+            tst['bi'] = 'avoid'
+        h, b = para(tail, tst, 1, 1, False); html += h; kids.append(b)
+    html = ('<style>@page{size:100px %dpx; margin:0} body{margin:0;font-family:weasyprint;font-size:10px;'
+            'line-height:10px} p{margin:0}</style>' % H) + html
+    d = {'orphans': 1, 'widows': 1}
+    root = ('blk', dict(d), [('blk', dict(d), kids, False)], True)
+    return html, root, H, counter[0]
+
+
 def z(v):
     return '(%d)' % v
 
